@@ -89,9 +89,10 @@ PROP = {'rule': 'rapid-generated cases, one unit per package. '
                       {'run': 'TestVerifC19NUMAPersistDecode', 'quick': 3000, 'thorough': 15000}]},
            {'name': 'device',
             'pkg': 'pkg/scheduler/plugins/deviceshare',
-            'files': ['C19/c19_device_test.go'],
+            'files': ['C19/c19_device_test.go', 'C19/c19_devicevf_test.go'],
             'tests': [{'run': 'TestVerifC19DeviceReplay', 'quick': 800, 'thorough': 2000, 'steps': 20, 'shrinktime': '20s'},
-                      {'run': 'TestVerifC19DeviceConcurrentFirstEvents', 'quick': 150, 'thorough': 600, 'shrinktime': '5s'}]},
+                      {'run': 'TestVerifC19DeviceConcurrentFirstEvents', 'quick': 150, 'thorough': 600, 'shrinktime': '5s'},
+                      {'run': 'TestVerifC19DeviceVFReplay', 'quick': 3000, 'thorough': 20000, 'shrinktime': '10s'}]},
            {'name': 'reservation',
             'pkg': 'pkg/scheduler/plugins/reservation',
             'files': ['C19/c19_reservation_test.go'],
